@@ -565,6 +565,8 @@ class ScrollBar(WidgetDecoration[WrappedWidget]):
         top_height = int((maxrow - thumb_height) * top_weight)
         if top_height == 0 and top_weight > 0:
             top_height = 1
+        # nothing is left above a thumb that fills the whole bar (always the case in a one-row view)
+        top_height = min(top_height, maxrow - thumb_height)
 
         # Bottom part is remaining space
         bottom_height = maxrow - thumb_height - top_height
